@@ -67,7 +67,7 @@ func (i *c15Inst) tokeninfo(method, query string) (*HResp, error) {
 
 func CheckC15(l *Lab, verifDir string) int {
 	rep := NewReport("C15", l.Tier, l.Seed, "exploration", verifDir)
-	rep.Rule = "GET /tokeninfo on real gateway processes in both key modes (encrypt-only, sign-and-encrypt): tokens minted through the real /connect flow with a {{ token }} user-name template for a range of user names (must give 200 with sub == user and must not reveal the name in any decoded segment); every single-character substitution of each of the five JWE segments (sampled positions in quick) judged by the lab's own RFC 7516 dir/A128CBC-HS256 implementation: a mutant whose decoded header, IV, ciphertext or tag bytes change must give 403; tokens forged under other keys, algorithms, issuers, expiry (-1h, -180s, +1h; a -50s token looked up before and again after its leeway ran out), plain signed JWTs, arbitrary strings; cross-mode tokens between an encrypt-only and a sign-and-encrypt instance sharing the encryption key; instances with 33- and 64-character signing keys (minted and own signed tokens 200, encrypt-only and other-key tokens 403); missing/empty parameter => 400, non-GET => 405, no claim text in refusals. non-trivial = request answered by the gateway; distinct = mode x class x mutation x status"
+	rep.Rule = "GET /tokeninfo on real gateway processes in both key modes (encrypt-only, sign-and-encrypt): tokens minted through the real /connect flow with a {{ token }} user-name template for a range of user names (must give 200 with sub == user and must not reveal the name in any decoded segment); every single-character substitution of each of the five JWE segments (sampled positions in quick) judged by the lab's own RFC 7516 dir/A128CBC-HS256 implementation: a mutant whose decoded header, IV, ciphertext or tag bytes change must give 403; tokens forged under other keys, algorithms, issuers, expiry (-1h, -180s, +1h; a -50s token looked up before and again after its leeway ran out), plain signed JWTs, arbitrary strings, in sign-and-encrypt mode never-signed claims in envelopes with a missing / empty / other-case / other content-type header; cross-mode tokens between an encrypt-only and a sign-and-encrypt instance sharing the encryption key; instances with 33- and 64-character signing keys (minted and own signed tokens 200, encrypt-only and other-key tokens 403); missing/empty parameter => 400, non-GET => 405, no claim text in refusals. non-trivial = request answered by the gateway; distinct = mode x class x mutation x status"
 	idp, err := NewIdP()
 	if err != nil {
 		rep.Inconclusive(err.Error())
@@ -381,6 +381,17 @@ func CheckC15(l *Lab, verifDir string) int {
 			add("inner JWS under another signing key", 403, c15Forge(true, "rdpgw", "forged-user", now+3600, nil, []byte("another-signing-key-0123456789ab")), "")
 			add("inner JWS under the encryption key", 403, c15Forge(true, "rdpgw", "forged-user", now+3600, nil, []byte(c15EncKey)), "")
 			inner := SignHS("HS384", "HS384", []byte(c15SigKey), nil, map[string]any{"iss": "rdpgw", "sub": "x", "exp": now + 3600})
+			// claims that were never signed, in envelopes that do not announce a nested token: knowing the
+			// encryption key alone must not be enough in sign-and-encrypt mode
+			upl, _ := json.Marshal(map[string]any{"iss": "rdpgw", "sub": "forged-user", "exp": now + 3600})
+			for _, hv := range []struct {
+				name string
+				hdr  map[string]any
+				zip  bool
+			}{{"no cty header", nil, true}, {"no cty header, not compressed", nil, false}, {"cty json", map[string]any{"cty": "json"}, true}, {"cty lower-case jwt", map[string]any{"cty": "jwt"}, true},
+				{"cty empty", map[string]any{"cty": ""}, true}, {"cty application/jwt", map[string]any{"cty": "application/jwt"}, true}, {"typ JWT only", map[string]any{"typ": "JWT"}, true}} {
+				add("unsigned claims under the encryption key, "+hv.name, 403, EncryptJWE([]byte(c15EncKey), hv.hdr, upl, hv.zip, nil), "")
+			}
 			add("inner JWS HS384", 403, EncryptJWE([]byte(c15EncKey), map[string]any{"cty": "JWT"}, []byte(inner), true, nil), "")
 			hn, _ := json.Marshal(map[string]any{"alg": "none"})
 			pl, _ := json.Marshal(map[string]any{"iss": "rdpgw", "sub": "x", "exp": now + 3600})
